@@ -2,6 +2,8 @@ package main
 
 import (
 	"bytes"
+	"crypto/sha256"
+	"encoding/hex"
 	"encoding/json"
 	"fmt"
 	"os"
@@ -10,6 +12,7 @@ import (
 	"sort"
 	"strings"
 	"sync"
+	"time"
 )
 
 // Positive / negative controls (thorough tier): each patch under
@@ -37,12 +40,16 @@ func runControls(c *Ctx, prop string) ([]controlResult, bool) {
 	dir := filepath.Join(verifDir(), "mutants", prop)
 	metas, _ := filepath.Glob(filepath.Join(dir, "*.json"))
 	sort.Strings(metas)
-	results := make([]controlResult, len(metas))
+	// the corpus of behaviour-preserving refactorings (written by independent
+	// agents for all properties): every one must leave this property's check silent
+	rfs, _ := filepath.Glob(filepath.Join(verifDir(), "refactorings", "C*", "r*.diff"))
+	sort.Strings(rfs)
+	results := make([]controlResult, len(metas)+len(rfs))
 	exe, err := os.Executable()
 	if err != nil {
 		broken("controls: %v", err)
 	}
-	par := 6
+	par := 8
 	sem := make(chan struct{}, par)
 	var wg sync.WaitGroup
 	for i, mp := range metas {
@@ -51,8 +58,17 @@ func runControls(c *Ctx, prop string) ([]controlResult, bool) {
 			defer wg.Done()
 			sem <- struct{}{}
 			defer func() { <-sem }()
-			results[i] = runOneControl(c, exe, prop, mp)
+			results[i] = runOneControl(c, exe, prop, mp, nil)
 		}(i, mp)
+	}
+	for i, rp := range rfs {
+		wg.Add(1)
+		go func(i int, rp string) {
+			defer wg.Done()
+			sem <- struct{}{}
+			defer func() { <-sem }()
+			results[len(metas)+i] = runRefactoringControl(c, exe, prop, rp)
+		}(i, rp)
 	}
 	wg.Wait()
 	ok := true
@@ -64,20 +80,25 @@ func runControls(c *Ctx, prop string) ([]controlResult, bool) {
 	return results, ok
 }
 
-func runOneControl(c *Ctx, exe, prop, metaPath string) controlResult {
+func runOneControl(c *Ctx, exe, prop, metaPath string, given *controlMeta) controlResult {
 	var m controlMeta
-	b, err := os.ReadFile(metaPath)
-	if err != nil {
-		return controlResult{Name: metaPath, Outcome: "error", Detail: err.Error()}
-	}
-	if err := json.Unmarshal(b, &m); err != nil {
-		return controlResult{Name: metaPath, Outcome: "error", Detail: err.Error()}
+	patch := strings.TrimSuffix(metaPath, ".json") + ".patch"
+	if given != nil {
+		m = *given
+		patch = metaPath
+	} else {
+		b, err := os.ReadFile(metaPath)
+		if err != nil {
+			return controlResult{Name: metaPath, Outcome: "error", Detail: err.Error()}
+		}
+		if err := json.Unmarshal(b, &m); err != nil {
+			return controlResult{Name: metaPath, Outcome: "error", Detail: err.Error()}
+		}
 	}
 	res := controlResult{Name: m.Name, Expect: m.Expect}
 	if m.ExpectSilent {
 		res.Expect = "(silent)"
 	}
-	patch := strings.TrimSuffix(metaPath, ".json") + ".patch"
 	tmp, err := os.MkdirTemp("", "chfverif.")
 	if err != nil {
 		res.Outcome, res.Detail = "error", err.Error()
@@ -159,6 +180,155 @@ func runOneControl(c *Ctx, exe, prop, metaPath string) controlResult {
 	return res
 }
 
+// rfOutcome is what all checks said about one refactoring; it is computed once
+// per (analysed tree, checker binary, refactoring) and shared by the thorough
+// runs of the twenty properties through a scratch cache (an optimisation only:
+// a missing or unreadable cache entry is recomputed).
+type rfOutcome struct {
+	Status string              `json:"status"` // ok | skipped | error
+	Detail string              `json:"detail,omitempty"`
+	Viols  map[string][]string `json:"viols"`  // property -> violated obligations
+	Broken map[string]string   `json:"broken"` // property -> CHECKER-BROKEN message
+}
+
+var rfKeyOnce sync.Once
+var rfKeyBase string
+
+func rfCacheKey(c *Ctx, exe string) string {
+	rfKeyOnce.Do(func() {
+		h := sha256.New()
+		if b, err := os.ReadFile(exe); err == nil {
+			h.Write(b)
+		}
+		_ = filepath.Walk(c.RepoDir, func(path string, fi os.FileInfo, err error) error {
+			if err != nil {
+				return nil
+			}
+			if fi.IsDir() {
+				if fi.Name() == ".git" {
+					return filepath.SkipDir
+				}
+				return nil
+			}
+			if strings.HasSuffix(path, ".go") || fi.Name() == "go.mod" || fi.Name() == "go.sum" {
+				rel, _ := filepath.Rel(c.RepoDir, path)
+				h.Write([]byte(rel))
+				if b, err := os.ReadFile(path); err == nil {
+					h.Write(b)
+				}
+			}
+			return nil
+		})
+		for _, extra := range []string{"known_findings.json", "reviewed.json", "chfcheck/baseline_funcs.txt"} {
+			if b, err := os.ReadFile(filepath.Join(verifDir(), extra)); err == nil {
+				h.Write(b)
+			}
+		}
+		rfKeyBase = hex.EncodeToString(h.Sum(nil))[:24]
+		// entries of other trees / binaries are of no use any more
+		root := filepath.Join(os.TempDir(), "chfcheck-rfcache")
+		if ents, err := os.ReadDir(root); err == nil {
+			for _, e := range ents {
+				if fi, err := e.Info(); err == nil && e.Name() != rfKeyBase && time.Since(fi.ModTime()) > 2*time.Hour {
+					_ = os.RemoveAll(filepath.Join(root, e.Name()))
+				}
+			}
+		}
+	})
+	return rfKeyBase
+}
+
+func runRefactoringControl(c *Ctx, exe, prop, rp string) controlResult {
+	name := "refactoring_" + filepath.Base(filepath.Dir(rp)) + "_" + strings.TrimSuffix(filepath.Base(rp), ".diff")
+	res := controlResult{Name: name, Expect: "(silent)"}
+	diff, err := os.ReadFile(rp)
+	if err != nil {
+		res.Outcome, res.Detail = "error", err.Error()
+		return res
+	}
+	dh := sha256.Sum256(diff)
+	cdir := filepath.Join(os.TempDir(), "chfcheck-rfcache", rfCacheKey(c, exe))
+	cfile := filepath.Join(cdir, name+"-"+hex.EncodeToString(dh[:8])+".json")
+	var oc rfOutcome
+	cached := false
+	if os.Getenv("CHFCHECK_NO_RFCACHE") == "" {
+		if b, err := os.ReadFile(cfile); err == nil && json.Unmarshal(b, &oc) == nil && oc.Status != "" {
+			cached = true
+		}
+	}
+	if !cached {
+		oc = computeRefactoring(c, exe, rp)
+		if oc.Status != "error" && os.MkdirAll(cdir, 0o755) == nil {
+			if b, err := json.Marshal(oc); err == nil {
+				tmp := cfile + fmt.Sprintf(".%d", os.Getpid())
+				if os.WriteFile(tmp, b, 0o644) == nil {
+					_ = os.Rename(tmp, cfile)
+				}
+			}
+		}
+	}
+	switch {
+	case oc.Status == "skipped":
+		res.Outcome, res.Detail = "skipped", oc.Detail
+	case oc.Status == "error":
+		res.Outcome, res.Detail = "error", oc.Detail
+	case oc.Broken[prop] != "":
+		res.Outcome, res.Detail = "error", oc.Broken[prop]
+	case len(oc.Viols[prop]) > 0:
+		res.Outcome, res.Detail = "FALSE-ALARM", strings.Join(oc.Viols[prop], " ; ")
+	default:
+		res.Outcome = "silent-as-expected"
+	}
+	return res
+}
+
+func computeRefactoring(c *Ctx, exe, rp string) rfOutcome {
+	oc := rfOutcome{Status: "ok", Viols: map[string][]string{}, Broken: map[string]string{}}
+	tmp, err := os.MkdirTemp("", "chfverif.")
+	if err != nil {
+		return rfOutcome{Status: "error", Detail: err.Error()}
+	}
+	defer os.RemoveAll(tmp)
+	cp := exec.Command("rsync", "-a", "--exclude", ".git", c.RepoDir+"/", tmp+"/")
+	if out, err := cp.CombinedOutput(); err != nil {
+		return rfOutcome{Status: "error", Detail: "copy: " + string(out)}
+	}
+	ap := exec.Command("patch", "-p1", "-s", "-f", "--no-backup-if-mismatch", "-i", rp)
+	ap.Dir = tmp
+	if out, err := ap.CombinedOutput(); err != nil {
+		return rfOutcome{Status: "skipped", Detail: "refactoring no longer applies to this tree: " + firstLine(string(out))}
+	}
+	run := exec.Command(exe, "-repo", tmp, "-property", "all", "-evidence-dir", "none", "-rules")
+	run.Env = append(os.Environ(), "CHFCHECK_VERIF="+verifDir())
+	var out bytes.Buffer
+	run.Stdout = &out
+	run.Stderr = &out
+	err = run.Run()
+	if _, isExit := err.(*exec.ExitError); err != nil && !isExit {
+		return rfOutcome{Status: "error", Detail: err.Error()}
+	}
+	for _, line := range strings.Split(out.String(), "\n") {
+		if strings.HasPrefix(line, "OB "+stViol+" ") {
+			v := strings.TrimPrefix(line, "OB "+stViol+" ")
+			if len(v) >= 3 {
+				oc.Viols[v[:3]] = append(oc.Viols[v[:3]], v)
+			}
+		}
+		if strings.HasPrefix(line, "CHECKER-BROKEN: property=") {
+			rest := strings.TrimPrefix(line, "CHECKER-BROKEN: property=")
+			if len(rest) >= 3 {
+				oc.Broken[rest[:3]] = firstLine(rest)
+			}
+		} else if strings.HasPrefix(line, "CHECKER-BROKEN: ") {
+			if strings.Contains(line, "has errors") {
+				return rfOutcome{Status: "skipped", Detail: "refactoring does not compile on this tree: " + firstLine(line)}
+			}
+			return rfOutcome{Status: "error", Detail: firstLine(line)}
+		}
+	}
+	return oc
+}
+
 func firstLine(s string) string {
 	s = strings.TrimSpace(s)
 	if i := strings.Index(s, "\n"); i >= 0 {
@@ -176,5 +346,5 @@ func summariseControls(rs []controlResult) map[string]any {
 		cnt[r.Outcome]++
 	}
 	return map[string]any{"total": len(rs), "by_outcome": cnt, "results": rs,
-		"note": fmt.Sprintf("each control is a patch of /verif/mutants applied to a scratch copy of the analysed tree; 'fired' = the named rule reported the mutated construct; 'skipped' = patch no longer applies")}
+		"note": fmt.Sprintf("each control is a patch of /verif/mutants applied to a scratch copy of the analysed tree; 'fired' = the named rule reported the mutated construct; 'skipped' = patch no longer applies; refactoring_* controls are the behaviour-preserving refactorings of /verif/refactorings, each analysed once by all checks per (tree, checker binary) and shared between the properties' thorough runs")}
 }
